@@ -798,4 +798,11 @@ theorem ok_of_ne_panic {α : Type} {x : Codec.Chk α} (h : x ≠ .panic) :
   | ok a => exact ⟨a, rfl, fun _ => rfl⟩
   | panic => exact absurd rfl h
 
+/-- `handle_srt_ack` does not read the liveness stamp. -/
+theorem srtAck_stamp_irrelevant (c : Conn) (x : Option Nat) (a : Int) (now : Nat) :
+    ({ c with lastReceived := x }.srtAck a now).2 = (c.srtAck a now).2 := by
+  unfold Conn.srtAck
+  dsimp only
+  split <;> rfl
+
 end Srtla.Uplink
